@@ -275,3 +275,19 @@ package engine
 //@   ensures result1 == nil && (opts.Type & common.RangeROpen != 0 || opts.Max == nil) ==> sameSlice(result0.opt.UpperBound, opts.Max)
 //@   ensures result1 == nil && opts.Type & common.RangeROpen == 0 && opts.Max != nil ==> len(result0.opt.UpperBound) == len(opts.Max) + 1 && result0.opt.UpperBound[len(opts.Max)] == 0 && (forall i int :: 0 <= i && i < len(opts.Max) ==> result0.opt.UpperBound[i] == old(opts.Max[i]))
 //@   modifies *
+
+// the in-memory cursor is built with the same bounds
+//@ func (me *memEng) IsClosed() bool
+//@   trusted atomic flag read
+//@ func (t *btree) MakeIter() biterator
+//@   trusted btree cursor construction; reads only
+//@ func (mi *radixMemIndex) NewIterator() (*radixIterator, error)
+//@   trusted radix cursor construction (read transaction); reads only
+//@ func (sl *skipList) NewIterator() *SkipListIterator
+//@   trusted skip-list cursor construction; reads only
+//@ func newMemIterator(db *memEng, opts IteratorOpts) (*memIterator, error)
+//@   requires db != nil && db.eng != nil && db.radixMemI != nil && db.slEng != nil
+//@   ensures result1 == nil ==> result0 != nil && sameSlice(result0.lowerBound, opts.Min)
+//@   ensures result1 == nil && (opts.Type & common.RangeROpen != 0 || opts.Max == nil) ==> sameSlice(result0.upperBound, opts.Max)
+//@   ensures result1 == nil && opts.Type & common.RangeROpen == 0 && opts.Max != nil ==> len(result0.upperBound) == len(opts.Max) + 1 && result0.upperBound[len(opts.Max)] == 0 && (forall i int :: 0 <= i && i < len(opts.Max) ==> result0.upperBound[i] == old(opts.Max[i]))
+//@   modifies *
